@@ -211,3 +211,21 @@ pub fn build_file(blocks: &[Vec<u8>], level: u8, eof: bool) -> Vec<u8> {
 pub fn gzi_of(members: &[Member]) -> Vec<(u64, u64)> {
     members.iter().skip(1).map(|m| (m.cpos, m.ustart)).collect()
 }
+
+/// The file with one empty member (the 28-byte EOF marker block) inserted at a member boundary
+/// chosen by `sel` (per-mille over the boundaries, the start of the file included): the shape
+/// `cat a.bgz b.bgz` produces. The result is a valid BGZF file with the same payload. `None` when
+/// the input does not walk as BGZF.
+pub fn with_empty_member(file: &[u8], sel: u16) -> Option<Vec<u8>> {
+    let members = walk(file).ok()?;
+    if members.is_empty() {
+        return None;
+    }
+    let idx = (sel as usize % 1001) * members.len() / 1001;
+    let at = members[idx].cpos as usize;
+    let mut v = Vec::with_capacity(file.len() + EOF_MARKER.len());
+    v.extend_from_slice(&file[..at]);
+    v.extend_from_slice(&EOF_MARKER);
+    v.extend_from_slice(&file[at..]);
+    Some(v)
+}
